@@ -399,7 +399,14 @@ def r5(R5, cfg, F):
             snd = [c for c in rl.calls() if c.callee and c.callee.best == 'crossbeam_channel::Sender::<T>::send']
             msg = [s for s in agg_of(rl, snd[0].args[1]) if s['rv'].get('variant_name') == 'Ptr']
             mp = [c for c in rl.calls() if c.args and rl.access_path(c.args[0]) == ['arg2']] if msg else []
-            ok = bool(mp) and (rl.access_path(msg[0]['rv']['ops'][0]) or [''])[0] == 'call@bb%d' % mp[0].bb
+            # the map sent is the one reload was given (the pointer may sit in a private struct that groups the request)
+            from mir import agg_direct as _ad
+            ops_ = list(msg[0]['rv']['ops']) if msg else []
+            for o_ in list(ops_):
+                sub_ = _ad(rl, o_) if o_.get('k') in ('copy', 'move') else None
+                if sub_ is not None:
+                    ops_ += sub_['rv'].get('ops') or []
+            ok = bool(mp) and any((common.deep_path(rl, o_) or [''])[0] == 'call@bb%d' % mp[0].bb for o_ in ops_)
         R5.check(ok, cfg, rl.path, 'waits-for-own-token-after-successful-send', 'reload must wait for the answer carrying the token it just sent, on every path after a successful send', rl.loc())
     # reloader: notify(token) after update_if_local returns
     ul = [c for c in th.calls() if c.callee and c.callee.name == 'update_if_local']
@@ -407,8 +414,8 @@ def r5(R5, cfg, F):
     ok = len(ul) == 1 and len(nt) >= 1
     if ok:
         ok = any(th.dominates(ul[0].bb, n.bb) and n.bb in th.reachable([ul[0].target]) for n in nt if ul[0].target is not None)
-        a = th.access_path(nt[0].args[1])
-        ok = ok and bool(a) and 'as:Ptr' in a and a[-1] == '2'
+        a = common.deep_path(th, nt[0].args[1], at=nt[0].bb)
+        ok = ok and bool(a) and 'as:Ptr' in a and nt[0].args[1].get('place', {}).get('ty') == 'usize'
     R5.check(ok, cfg, th.path, 'answers-after-update_if_local', 'the reloader must answer the token of the Ptr message after update_if_local returned', ul[0].loc() if ul else th.loc())
 
 
